@@ -1696,7 +1696,19 @@ impl<'t> Cloner<'t> {
                 Ok(_) => unreachable!(),
                 Err(mut new_array) => {
                     match new_array.repr() {
-                        Repr::Byte | Repr::Int | Repr::Float | Repr::String => Ok(()),
+                        Repr::Byte | Repr::Int | Repr::Float => Ok(()),
+                        Repr::String => deep_clone_elems(&mut new_array, |e: &GcStr| {
+                            if self
+                                .receiver_generation
+                                .can_contain_values_from(e.generation())
+                            {
+                                return Ok(e.clone_unrooted());
+                            }
+                            match self.deep_clone_str(e)? {
+                                String(s) => Ok(s),
+                                _ => unreachable!(),
+                            }
+                        }),
                         Repr::Array => {
                             deep_clone_elems(&mut new_array, |e| self.deep_clone_array(e))
                         }
